@@ -1,5 +1,6 @@
 import AfkakProofs.Wire.Requests
 import AfkakProofs.Wire.Group
+import AfkakProofs.Wire.GroupCount
 /-!
 # The topic-grouped requests: the model's bytes are the grammar's encoding of the regrouped payloads
 -/
@@ -27,11 +28,12 @@ theorem topicMap_some {item : α → Option β} {tp : Option Bytes × List (Int 
 theorem topics_bytes (topic : α → Option Bytes) (partition : α → Int) (item : α → Option β) (c : Codec (Int × β))
     (partEntry : Int × α → R Bytes)
     (hitem : ∀ q b y, itemMap item q = some b → partEntry q = .ok y → y = c.enc b)
-    (xs : List α) (l : List (Bytes × (Int × β))) (hk : keyed topic partition item xs = some l) (body : Bytes)
+    (xs : List α) (l : List (Bytes × (Int × β))) (hk : keyed topic partition item xs = some l)
+    (hcnt : payloadCount (groupByTopicPartition topic partition xs) = xs.length) (body : Bytes)
     (hbody : concatMapM (topicEntry ['>', 'i'] partEntry) (groupByTopicPartition topic partition xs) = .ok body) :
     body = encAll (Codec.string ⊗ array c) (regroup l)
     ∧ (groupByTopicPartition topic partition xs).length = (regroup l).length := by
-  have hg := group_mapM_regroup topic partition item xs l hk
+  have hg := group_mapM_regroup topic partition item xs l hk (payloadCount_eq_iff_nodup topic partition xs hcnt)
   refine ⟨?_, hg.2⟩
   apply concatMapM_encAll (topicEntry ['>', 'i'] partEntry) (topicMap item) (Codec.string ⊗ array c) _ _ _ _ hg.1 hbody
   intro tp r y hr hy
@@ -93,6 +95,9 @@ theorem fetch_bytes {cid : Bytes} {corr wait minb ver v : Int} {ps : List FetchR
   simp only at h
   split at h
   · cases h
+  rename_i hcnt
+  split at h
+  · cases h
   · rename_i hd hhd
     split at h
     · cases h
@@ -112,7 +117,7 @@ theorem fetch_bytes {cid : Bytes} {corr wait minb ver v : Int} {ps : List FetchR
             simp only [fmt_encode_fetch_request_2] at hy
             rw [pack_bytes hy]
             simp [packedBody, widthOf, fieldSpec, seq_enc, int32, int64, intN])
-          ps l hk body hbody
+          ps l hk (Decidable.not_not.mp hcnt) body hbody
         simp only [fmt_encode_fetch_request_0, argc_encode_fetch_request_0_0] at hh2
         rw [encodeHeader_ok hhd, pack_bytes hh2, hb.1, clamp_fetch hv, hb.2]
         simp [packedBody, widthOf, fieldSpec, request_enc, Spec.fetchRequest, Spec.topics, seq_enc, array_enc, hdr,
@@ -125,6 +130,9 @@ theorem listOffsets_bytes {cid : Bytes} {corr : Int} {ps : List OffsetReq}
     frame = (Spec.request Spec.listOffsetsRequest).enc (hdr 2 0 corr cid, -1, regroup l) := by
   unfold encodeOffsetRequest at h
   simp only at h
+  split at h
+  · cases h
+  rename_i hcnt
   split at h
   · cases h
   · rename_i hd hhd
@@ -146,7 +154,7 @@ theorem listOffsets_bytes {cid : Bytes} {corr : Int} {ps : List OffsetReq}
             simp only [fmt_encode_offset_request_2] at hy
             rw [pack_bytes hy]
             simp [packedBody, widthOf, fieldSpec, seq_enc, int32, int64, intN])
-          ps l hk body hbody
+          ps l hk (Decidable.not_not.mp hcnt) body hbody
         simp only [fmt_encode_offset_request_0, argc_encode_offset_request_0_0] at hh2
         rw [encodeHeader_ok hhd, pack_bytes hh2, hb.1, hb.2]
         simp [packedBody, widthOf, fieldSpec, request_enc, Spec.listOffsetsRequest, Spec.topics, seq_enc, array_enc, hdr,
@@ -160,6 +168,9 @@ theorem offsetFetch_bytes {cid g : Bytes} {corr : Int} {ps : List OffsetFetchReq
       (hdr 9 1 corr cid, g, (regroup l).map (fun e => (e.1, e.2.map (·.1)))) := by
   unfold encodeOffsetFetchRequest at h
   simp only at h
+  split at h
+  · cases h
+  rename_i hcnt
   split at h
   · cases h
   · rename_i hd hhd
@@ -185,7 +196,7 @@ theorem offsetFetch_bytes {cid g : Bytes} {corr : Int} {ps : List OffsetFetchReq
               simp only [fmt_encode_offset_fetch_request_2] at hy
               rw [pack_i hy]
               rfl)
-            ps l hk body hbody
+            ps l hk (Decidable.not_not.mp hcnt) body hbody
           simp only [fmt_encode_offset_fetch_request_0] at hnb
           have henc : ∀ (topics : List (Bytes × List (Int × Unit))),
               encAll (Codec.string ⊗ array (iso int32 (fun p => (p, ())) (fun q => q.1) (fun _ => true) (fun _ _ => rfl))) topics =
@@ -210,6 +221,9 @@ theorem offsetCommit_bytes {cid g c : Bytes} {corr gen : Int} {ps : List OffsetC
     frame = (Spec.request Spec.offsetCommitRequest).enc (hdr 8 1 corr cid, g, gen, c, regroup l) := by
   unfold encodeOffsetCommitRequest at h
   simp only [Option.isNone_some, Bool.false_eq_true, if_false] at h
+  split at h
+  · cases h
+  rename_i hcnt
   split at h
   · cases h
   · rename_i hd hhd
@@ -248,7 +262,7 @@ theorem offsetCommit_bytes {cid g c : Bytes} {corr gen : Int} {ps : List OffsetC
                       simp only [fmt_encode_offset_commit_request_3] at hhb'
                       rw [pack_bytes hhb', writeShortBytes_opt hmd]
                       simp [packedBody, widthOf, fieldSpec, seq_enc, int32, int64, intN, List.append_assoc])
-                ps l hk body hbody
+                ps l hk (Decidable.not_not.mp hcnt) body hbody
               simp only [fmt_encode_offset_commit_request_0] at hgenb
               simp only [fmt_encode_offset_commit_request_1] at hnb
               rw [encodeHeader_ok hhd, writeShortAscii_some hgb, pack_i hgenb, writeShortAscii_some hcb, pack_i hnb, hb.1, hb.2]
